@@ -6,7 +6,7 @@ From Coq Require Import List Bool Arith ZArith Lia ZifyBool.
 Import ListNotations.
 From Rosed Require Import Base.Cls Base.Res Base.ListX Base.Str Base.Utf8 Gem.Segment Gem.GString Model.Util Model.Tb Model.Manip Model.Table
      Model.Options Model.Editor Model.Ops Proofs.SegmentP Proofs.SeamP Proofs.C04P Proofs.C13P Proofs.C06Q Proofs.C06T Proofs.C09P Proofs.C14P Proofs.C15P Proofs.C14Q
-     Proofs.C18P Proofs.C18Q.
+     Proofs.C18P Proofs.C18Q Proofs.SubaddP.
 Open Scope Z_scope.
 
 Section C14R.
@@ -42,6 +42,41 @@ Proof.
     destruct (wrap_total (decode rt) rw (decode (o_linesep (with_defaults opts)))) as [rb Hrb];
     subst lt rt; rewrite (HL lb rb) by (try assumption; (left; discriminate) || (right; discriminate));
     apply insert_total, Hs.
+Qed.
+
+(* no row is wider than the two columns and the gap: every text *)
+Lemma glen_le_len (x : list Z) : glen x <= Z.of_nat (length x).
+Proof. unfold glen, zlen. pose proof (clusters_length_le x). lia. Qed.
+
+Theorem row_width (left right : list gstr) lw rw gap k : 0 <= lw -> 0 <= gap -> 0 <= rw ->
+  Forall (fun l => glen l <= lw) left -> Forall (fun r => glen r <= rw) right ->
+  glen (row_of left right (lw + gap) k) <= lw + gap + rw.
+Proof.
+  intros Hlw Hgap Hrw Hl Hr. unfold row_of. cbv zeta.
+  set (l := match nth_error left k with Some x => x | None => [] end).
+  set (r := match nth_error right k with Some x => x | None => [] end).
+  assert (Gl : 0 <= glen l <= lw).
+  { unfold l. destruct (nth_error left k) eqn:E; [|change (glen []) with 0; lia].
+    rewrite Forall_forall in Hl. pose proof (Hl _ (nth_error_In _ _ E)). unfold glen, zlen in *. lia. }
+  assert (Gr : glen r <= rw).
+  { unfold r. destruct (nth_error right k) eqn:E; [|change (glen []) with 0; lia].
+    rewrite Forall_forall in Hr. exact (Hr _ (nth_error_In _ _ E)). }
+  pose proof (glen_app_le l (repeat SP (Z.to_nat (lw + gap - glen l)) ++ r)) as Ha1.
+  pose proof (glen_app_le (repeat SP (Z.to_nat (lw + gap - glen l))) r) as Ha2.
+  pose proof (glen_le_len (repeat SP (Z.to_nat (lw + gap - glen l)))) as Ha3. rewrite repeat_length in Ha3. lia.
+Qed.
+
+(* InsertTwoColumns: no row of the layout is wider than the (minimum-clamped) total width *)
+Theorem two_columns_rows_width lt rt gap width m ex sep lb rb :
+  let '(W, lw, rw) := two_col_widths width gap m ex in
+  0 <= gap -> wrap lt lw sep = Ok lb -> wrap rt rw sep = Ok rb ->
+  forall k, glen (row_of (b_lines lb) (b_lines rb) (lw + gap) k) <= W.
+Proof.
+  pose proof (two_col_widths_ok width gap m ex) as Hw. destruct (two_col_widths width gap m ex) as [[W lw] rw].
+  destruct Hw as (HW & Hlw & Hrw & Hsum). intros Hgap Hlb Hrb k.
+  pose proof (wrap_width_all _ _ _ _ Hlb) as Wl. pose proof (wrap_width_all _ _ _ _ Hrb) as Wr.
+  replace (Z.max lw 2) with lw in Wl by lia. replace (Z.max rw 2) with rw in Wr by lia.
+  pose proof (row_width (b_lines lb) (b_lines rb) lw rw gap k ltac:(lia) Hgap ltac:(lia) Wl Wr). lia.
 Qed.
 
 End C14R.
